@@ -425,6 +425,17 @@ def install():
         _orig['time.' + name] = real
         setattr(time, name, fake)
 
+    # sleeping advances the simulated clock instead of the real one
+    _orig['time.sleep'] = time.sleep
+
+    def sim_sleep(secs):
+        w = simmp.CURRENT[0]
+        if w is None:
+            return _orig['time.sleep'](secs)
+        w.now += max(0.0, float(secs))
+    sim_sleep._simverif_seam = True
+    time.sleep = sim_sleep
+
     # process identity / creation
     _orig['getpid'] = os.getpid
     os.getpid = lambda: (simmp.CURRENT[0].cur_pid if simmp.CURRENT[0] is not None else _orig['getpid']())
